@@ -9,7 +9,7 @@ use serde_json::{json, Value};
 
 pub const LEVEL: &str = "exploration";
 pub const EXHAUSTIVE: bool = false;
-pub const RULE: &str = "generated case = (options x layout, history H of 1..14 abstract ops over keys / typed words / backspaces / commits / finishes, terminating event in {commit of a valid index, finish, ctrl-backspace, plain backspaces until an empty suggestion is returned}, continuation K of 1..14 ops). Oracle (i) after every event: non-empty pre-edit text => ongoing session; after commit, finish and ctrl-backspace the flag is false; backspace when idle returns an empty suggestion and starts nothing; repeated plain backspaces reach an empty suggestion within 4*keys+2 presses and leave the flag false. Oracle (ii) differential: every event of K is applied to the used context and to a context created at that moment with the same configuration over a COPY of the user directory; renderings and session flags must be identical at every step. Non-trivial: H left a composition whose raw-key count differs from its code-point count, or a pending sign, or a learned commit, and K returned a list; distinct by concrete trace. Plus a long-lived part: one context per shard (phonetic with suggestions, two fixed settings) lives through all cases of the shard (>= 400 words, learning commits included); each case types a word, ends it by one of the four terminating events, checks the flag, and types the next word both in it and in a context created at that moment over a copy of the user directory (every rendering and the flag compared).";
+pub const RULE: &str = "generated case = (options x layout, history H of 1..14 abstract ops over keys / typed words / backspaces / commits / finishes, terminating event in {commit of a valid index, finish, ctrl-backspace, plain backspaces until an empty suggestion is returned}, continuation K of 1..14 ops). Oracle (i) after every event: non-empty pre-edit text => ongoing session; after commit, finish and ctrl-backspace the flag is false; backspace when idle returns an empty suggestion and starts nothing; repeated plain backspaces reach an empty suggestion within 4*keys+2 presses and leave the flag false. Oracle (ii) differential: every event of K is applied to the used context and to a context created at that moment with the same configuration over a COPY of the user directory; renderings and session flags must be identical at every step. Non-trivial: H left a composition whose raw-key count differs from its code-point count, or a pending sign, or a learned commit, and K returned a list; distinct by concrete trace. Plus a long-lived part: one context per shard (phonetic with suggestions, two fixed settings) lives through all cases of the shard (>= 400 words, learning commits included); each case types a word, ends it by one of the four terminating events, checks the flag, and types the next word both in it and in a context created at that moment over a copy of the user directory (every rendering and the flag compared). Plus an entry-removed part: a word that the user's list maps is typed and ended (three endings), that one entry is removed while the file stays, update-engine (idle), and the word, a suffixed and a wrapped form typed again are compared with a context created at that moment (108 cases).";
 pub const ASSUMPTIONS: &[&str] = &[
     "a context created over a copy of the user directory is 'a newly created context with the same configuration and learned selections'",
     "selection bytes are valid for the list shown before",
@@ -471,7 +471,84 @@ fn lcase_strategy() -> impl Strategy<Value = LCase> {
     (any::<u32>(), any::<u32>(), 0u8..4, any::<u16>(), proptest::bool::weighted(0.3)).prop_map(|(w1, w2, term, frac, toggle)| LCase { w1, w2, term: term | if toggle { 4 } else { 0 }, frac })
 }
 
+/// A word that the user's own list maps to something is typed and ended; then that one entry is taken out of the list
+/// (the file stays, with a later time stamp) and the context is told (update-engine, same configuration, idle).  The
+/// word - and the word with a suffix - typed again must come out as in a context created at that moment over a copy
+/// of the user directory: nothing of the ended word's earlier candidate list may survive.
+fn entry_removed_case(word: &str, value: &str, others: u8, english: bool, term: u8) -> Result<(), Failure> {
+    let case = json!({"entry_removed": {"word": word, "value": value, "others": others, "english": english, "term": term}});
+    let pf = |p: crate::driver::PanicInfo| Failure::new(panic_kind(&p), p.to_string(), case.clone());
+    let sb = Sandbox::new();
+    let mut doc: std::collections::BTreeMap<String, String> = std::collections::BTreeMap::new();
+    doc.insert(word.to_string(), value.to_string());
+    for (k, v) in [("zzq", "kkk"), ("park", "pak"), ("boi", "bOI")].iter().take(others as usize) {
+        doc.insert(k.to_string(), v.to_string());
+    }
+    let write = |d: &std::collections::BTreeMap<String, String>, secs: u64| {
+        std::fs::write(sb.autocorrect_file(), serde_json::to_string(d).unwrap()).expect("write list");
+        std::fs::File::options().write(true).open(sb.autocorrect_file()).expect("open").set_modified(std::time::UNIX_EPOCH + std::time::Duration::from_secs(secs)).expect("mtime");
+    };
+    write(&doc, 1_000_000);
+    let mut o = Opts::from_bits(0, 0b010);
+    o.english = english;
+    let mut a = Ctx::new(o, &sb).map_err(pf)?;
+    let texts = [word.to_string(), format!("{word}e"), format!("{word}gulo"), format!("({word})")];
+    for (i, t) in texts.iter().enumerate() {
+        let r = a.type_frontend(t).map_err(pf)?;
+        match ((term as usize + i) % 3, r) {
+            (0, Some(r)) if r.choices() > 0 => a.commit(0).map_err(pf)?,
+            (1, _) => {
+                a.backspace(true).map_err(pf)?;
+            }
+            _ => a.finish().map_err(pf)?,
+        }
+        if a.ongoing() {
+            return Err(Failure::new("flag-true-after-terminator", format!("after {t:?} was ended the session flag is still set"), case.clone()));
+        }
+    }
+    doc.remove(word);
+    write(&doc, 1_000_100);
+    a.update(o, &sb).map_err(pf)?;
+    let copy = sb.duplicate();
+    let b = Ctx::new(o, &copy).map_err(pf)?;
+    for t in &texts {
+        let mut sel = 0u8;
+        for ch in t.chars() {
+            let (ra, rb) = (a.ch(ch, sel).map_err(pf)?, b.ch(ch, sel).map_err(pf)?);
+            if ra != rb {
+                return Err(Failure::new(
+                    "continuation-differs-from-fresh",
+                    format!("entry {word:?} removed from the user's list after the word was ended: typing {t:?} again, at {ch:?} the used context returns {} but a newly created context returns {}", ra.short(), rb.short()),
+                    case.clone(),
+                ));
+            }
+            sel = if ra.lonely { 0 } else { ra.sel.min(255) as u8 };
+        }
+        a.finish().map_err(pf)?;
+        b.finish().map_err(pf)?;
+    }
+    Ok(())
+}
+
+fn entry_removed_after_the_word_ended(run: &Run) {
+    let mut items: Vec<(&str, &str, u8, bool, u8)> = vec![];
+    for (w, v) in [("xyz", "kotha"), ("amar", "tOmar"), ("abc", "kkk"), ("academy", "ekademi"), ("k", "khub"), ("sesh", "shuru")] {
+        for others in [0u8, 1, 3] {
+            for english in [false, true] {
+                for term in 0..3u8 {
+                    items.push((w, v, others, english, term));
+                }
+            }
+        }
+    }
+    run.exhaustive("entry-removed-after-the-word-ended", &items, |_| (), |&(w, v, others, english, term), st, _| {
+        st.label("entry-removed-after-the-word-ended");
+        entry_removed_case(w, v, others, english, term)
+    });
+}
+
 pub fn run(run: &Run) {
+    entry_removed_after_the_word_ended(run);
     run.sharded("history-terminator-continuation", 16, run.tier.pick(500, 10000), 500, strategy, |_| (), |c: &Case, st, _| run_case(run, c, st));
     run.require_label("H-left-desynchronised-composition", 30);
     run.require_label("H-learned-a-selection", 10);
@@ -484,6 +561,9 @@ pub fn run(run: &Run) {
 /// Replay: the concrete trace is split at `continuation_starts_at`; events before it run in the
 /// used context only, events after it in both.
 pub fn replay(run: &Run, case: &Value) -> Result<(), Failure> {
+    if let Some(e) = case.get("entry_removed") {
+        return entry_removed_case(e["word"].as_str().unwrap_or_default(), e["value"].as_str().unwrap_or_default(), e["others"].as_u64().unwrap_or(0) as u8, e["english"].as_bool().unwrap_or(false), e["term"].as_u64().unwrap_or(0) as u8);
+    }
     if let Some(ll) = case.get("long_lived") {
         let sb = Sandbox::new();
         let opts = Opts::parse(ll["opts"].as_str().unwrap_or_default());
